@@ -261,6 +261,9 @@ def _hp_mutation(ck: Check, repo: Repo) -> None:
         gs = cfg.guards_at(n)
         okg = any(pol and isinstance(g, ast.Compare) and isinstance(g.ops[0], ast.In) and dotted(g.left) == name_v and "get_lr_names" in ast.unparse(g.comparators[0])
                   for g, pol, _ in gs)
+        # ... or, equivalently, only the optimizer configurations whose `lr` is the mutated name are visited (a name that is no learning rate matches none)
+        okg = okg or any(pol and isinstance(g, ast.Compare) and len(g.ops) == 1 and isinstance(g.ops[0], ast.Eq) and _mentions(g, name_v) and _reads_attr(g, "lr")
+                         for g, pol, _ in gs)
         ck.ob("C06.4", fn, c, okg, "optimizers are re-created when (and only when) the mutated name is one of the agent's learning rates")
         ck.ob("C06.4", fn, c, cfg.dominates(cfg.node_of(sets[0]), n) if sets else False, "the new value is on the individual before optimizers are re-created from it")
         opt = get_kw(c, "optimizer", 1)
